@@ -93,6 +93,12 @@ def cases(rng, tier):
                 calls.append(["stop", rand_doc(rng, "json")])
             if rng.random() < 0.1:
                 calls.append([rng.choice(names), rand_doc(rng, "json")])               # stray document after stop
+        if rng.random() < 0.3:
+            # a string with a lone surrogate: what os.fsdecode / os.listdir return for a file name holding a non-UTF-8 byte
+            # (a detector reporting the path of a frame). json round-trips it (escaped as \udcXX); a UTF-8 encoder does not.
+            tgt = [c for c in calls if isinstance(c[1], dict)]
+            if tgt:
+                rng.choice(tgt)[1]["fs_path"] = "/data/caf\udce9/img_%d.tif" % rng.randrange(100)
         fn = rng.choice([None, None, "given.json", "given.jsonl", "né.out"])
         pre = []
         if rng.random() < 0.7:
